@@ -18,8 +18,12 @@ theorem verdict : (classify Generated.factsC29).Sound (Holds (cfgOf Generated.fa
 #print axioms Hv.Storage.compaction_keeps_name
 #print axioms compacted_v3
 #print axioms compacted_v2
+#print axioms scan_v2
+#print axioms compactFromIndex_keeps_given_name
 #print axioms Hv.Storage.listing_spec
 #print axioms listing_exact
+#print axioms Hv.Storage.page_tiles
+#print axioms not_holds_of_tuiOnePage
 #print axioms holds_of_good
 #print axioms holds_partial
 #print axioms longName_truncates
